@@ -252,17 +252,23 @@ fn sun_coords(seed: u64) -> Result<String, String> {
 /// or permits is exhausted): every result must equal the sequential one.
 fn many_threads(seed: u64) -> Result<String, String> {
     let mut rng = Rng(seed);
-    let n = 18 + rng.below(5) as usize;
+    // every other workload: 64-79 threads on an expression of many additional rules whose spans touch, so that
+    // nearly all of an evaluation is spent merging schedules (the innermost loop) and the threads are inside it
+    // together
+    let heavy = seed % 2 == 1;
+    let n = if heavy { 64 + rng.below(16) as usize } else { 18 + rng.below(5) as usize };
+    let per_thread = if heavy { 2 } else { 3 };
+    let many_rules: String = (0..14).map(|i| if i % 2 == 0 { 13 - i / 2 } else { 14 + i / 2 }).map(|i| format!("Mo-Su {:02}:00-{:02}:00{}", 2 + i, 3 + i, if i % 5 == 4 { " unknown" } else { "" })).collect::<Vec<_>>().join(", ");
     let exprs = ["Mo-Fr 09:00-12:00,13:00-17:00; Sa 10:00-12:00,12:00-14:00", "Mo-Su 10:00-12:00, 11:00-14:00 unknown, 13:30-16:00", "Mo-Fr 08:00-10:00,10:00-12:00,12:00-13:00 \"x\""];
-    let e = exprs[rng.below(3) as usize];
-    let oh = Arc::new(OpeningHours::parse(e).unwrap());
+    let e = if heavy { many_rules.as_str() } else { exprs[rng.below(3) as usize] };
+    let oh = Arc::new(OpeningHours::parse(e).map_err(|e| format!("harness: {e}"))?);
     let days: Vec<NaiveDate> = (0..3).map(|i| NaiveDate::from_ymd_opt(2024, 3, 4 + i + rng.below(3) as u32).unwrap()).collect();
     let render = |oh: &OpeningHours, d: NaiveDate| -> String { oh.schedule_at(d).into_iter().map(|r| format!("[{}-{} {:?} {:?}]", r.range.start, r.range.end, r.kind, r.comments)).collect() };
     let expected: Vec<String> = days.iter().map(|d| render(&oh, *d)).collect();
     let handles: Vec<_> = (0..n)
         .map(|i| {
             let (oh, days) = (oh.clone(), days.clone());
-            thread::spawn(move || days.iter().cycle().skip(i % 3).take(3).map(|d| (*d, oh.schedule_at(*d).into_iter().map(|r| format!("[{}-{} {:?} {:?}]", r.range.start, r.range.end, r.kind, r.comments)).collect::<String>())).collect::<Vec<_>>())
+            thread::spawn(move || days.iter().cycle().skip(i % 3).take(per_thread).map(|d| (*d, oh.schedule_at(*d).into_iter().map(|r| format!("[{}-{} {:?} {:?}]", r.range.start, r.range.end, r.kind, r.comments)).collect::<String>())).collect::<Vec<_>>())
         })
         .collect();
     for (i, h) in handles.into_iter().enumerate() {
